@@ -5,9 +5,14 @@
 package replay
 
 import (
+	"bytes"
 	_ "embed"
 	"encoding/json"
 	"fmt"
+	"go/ast"
+	"go/parser"
+	"go/printer"
+	"go/token"
 	"go/types"
 	"os"
 	"path/filepath"
@@ -24,7 +29,9 @@ var rtSource string
 
 // Step of a replay script.
 type Step struct {
-	Op    string   `json:"op"` // release | cancel | settle | barrier
+	Gate  string   `json:"gate,omitempty"` // pass: gate id ("L<line>")
+	N     int      `json:"n,omitempty"`    // pass: which arrival
+	Op    string   `json:"op"`             // release | cancel | settle | barrier | pass
 	Prov  string   `json:"prov,omitempty"`
 	Provs []string `json:"provs,omitempty"` // barrier: all of these must be inside at once
 }
@@ -32,6 +39,7 @@ type Step struct {
 type Script struct {
 	Faults     []string `json:"faults"`
 	Steps      []Step   `json:"steps"`
+	Gates      bool     `json:"gates"`       // the generated file is compiled with gates in front of its blocking operations
 	ReleaseAll bool     `json:"release_all"` // open every gate after the scripted steps
 	GraceMs    int      `json:"grace_ms"`
 	Repeat     int      `json:"repeat"`
@@ -151,6 +159,11 @@ func Run(p *pipeline.Pipe, it *pipeline.Item, d corpus.Decl, sc Script) *Result 
 		_ = os.WriteFile(filepath.Join(dir, name), []byte(src), 0o644)
 	}
 	for name, src := range it.GenSrc {
+		if sc.Gates {
+			if g, err := gateBlockingOps(src); err == nil {
+				src = g
+			}
+		}
 		_ = os.WriteFile(filepath.Join(dir, name), []byte(src), 0o644)
 	}
 	var args []string
@@ -236,6 +249,8 @@ import (
 )
 
 type vStep struct {
+	Gate  string   ` + "`json:\"gate\"`" + `
+	N     int      ` + "`json:\"n\"`" + `
 	Op    string   ` + "`json:\"op\"`" + `
 	Prov  string   ` + "`json:\"prov\"`" + `
 	Provs []string ` + "`json:\"provs\"`" + `
@@ -330,6 +345,12 @@ func TestVerifReplay(t *testing.T) {
 					break steps
 				}
 				verifrt.Release(s.Prov)
+			case "pass":
+				if !verifrt.Pass(s.Gate, s.N, 2*time.Second) {
+					obs.Realised = false
+					obs.StuckAt = fmt.Sprintf("pass %s#%d: never arrived", s.Gate, s.N)
+					break steps
+				}
 			case "barrier":
 				if p, ok := verifrt.WaitAllEntered(s.Provs, 2*time.Second); !ok {
 					obs.Realised = false
@@ -384,3 +405,87 @@ func TestVerifReplay(t *testing.T) {
 	}
 }
 `
+
+// gateBlockingOps inserts verifrt.Gate("L<line>") in front of every select,
+// plain receive statement and eg.Wait() statement of a generated file. Lines
+// are those of the unmodified file (what the SSA positions refer to).
+func gateBlockingOps(src string) (string, error) {
+	fset := token.NewFileSet()
+	f, err := parser.ParseFile(fset, "band.go", src, parser.ParseComments)
+	if err != nil {
+		return "", err
+	}
+	gate := func(pos token.Pos) ast.Stmt {
+		return &ast.ExprStmt{X: &ast.CallExpr{
+			Fun:  &ast.SelectorExpr{X: ast.NewIdent("verifrt"), Sel: ast.NewIdent("Gate")},
+			Args: []ast.Expr{&ast.BasicLit{Kind: token.STRING, Value: fmt.Sprintf("%q", fmt.Sprintf("L%d", fset.Position(pos).Line))}},
+		}}
+	}
+	isWaitCall := func(e ast.Expr) bool {
+		c, ok := e.(*ast.CallExpr)
+		if !ok {
+			return false
+		}
+		sel, ok := c.Fun.(*ast.SelectorExpr)
+		return ok && sel.Sel.Name == "Wait"
+	}
+	blocking := func(st ast.Stmt) (token.Pos, bool) {
+		switch s := st.(type) {
+		case *ast.SelectStmt:
+			return s.Select, true
+		case *ast.ExprStmt:
+			if u, ok := s.X.(*ast.UnaryExpr); ok && u.Op == token.ARROW {
+				return u.OpPos, true
+			}
+			if isWaitCall(s.X) {
+				return s.X.(*ast.CallExpr).Lparen, true
+			}
+		case *ast.AssignStmt:
+			if len(s.Rhs) == 1 && isWaitCall(s.Rhs[0]) {
+				return s.Rhs[0].(*ast.CallExpr).Lparen, true
+			}
+		case *ast.IfStmt:
+			if as, ok := s.Init.(*ast.AssignStmt); ok && len(as.Rhs) == 1 && isWaitCall(as.Rhs[0]) {
+				return as.Rhs[0].(*ast.CallExpr).Lparen, true
+			}
+		}
+		return token.NoPos, false
+	}
+	var rewrite func(list []ast.Stmt) []ast.Stmt
+	rewrite = func(list []ast.Stmt) []ast.Stmt {
+		var out []ast.Stmt
+		for _, st := range list {
+			if pos, ok := blocking(st); ok {
+				out = append(out, gate(pos))
+			}
+			ast.Inspect(st, func(n ast.Node) bool {
+				switch b := n.(type) {
+				case *ast.BlockStmt:
+					b.List = rewrite(b.List)
+					return false
+				case *ast.CaseClause:
+					b.Body = rewrite(b.Body)
+					return false
+				case *ast.CommClause:
+					b.Body = rewrite(b.Body)
+					return false
+				}
+				return true
+			})
+			out = append(out, st)
+		}
+		return out
+	}
+	for _, d := range f.Decls {
+		if fd, ok := d.(*ast.FuncDecl); ok && fd.Body != nil {
+			fd.Body.List = rewrite(fd.Body.List)
+		}
+	}
+	// import the runtime
+	f.Decls = append([]ast.Decl{&ast.GenDecl{Tok: token.IMPORT, Specs: []ast.Spec{&ast.ImportSpec{Path: &ast.BasicLit{Kind: token.STRING, Value: "\"verifcorpus/verifrt\""}}}}}, f.Decls...)
+	var buf bytes.Buffer
+	if err := printer.Fprint(&buf, token.NewFileSet(), f); err != nil {
+		return "", err
+	}
+	return buf.String(), nil
+}
